@@ -30,6 +30,19 @@ fn arg_pool() -> Vec<X> {
         X::Ref("x".into()), // the input field x is i1: identical to the literal
         X::Val(XV::I(2)),
         X::Val(XV::s("c1")),
+        // differ only in case / surrounding blanks / element order / nesting of none
+        X::Val(XV::s("a")),
+        X::Val(XV::s("A")),
+        X::Val(XV::s("a ")),
+        X::Vec(vec![X::Val(XV::I(1)), X::Val(XV::I(2))]),
+        X::Vec(vec![X::Val(XV::I(2)), X::Val(XV::I(1))]),
+        X::Vec(vec![X::Val(XV::N)]),
+        X::Vec(vec![]),
+        X::Val(XV::F(0.1 + 0.2)),
+        X::Val(XV::F(0.3)),
+        X::Val(XV::I(4_294_967_297)), // 2^32 + 1: equals 1 after truncation to 32 bits
+        X::Val(XV::I(-1)),
+        X::Val(XV::D(10, 1)), // d1.0 — deliberately NOT together with d1 (don't-care zone); see generate()
     ]
 }
 
@@ -85,18 +98,35 @@ pub fn generate(seed: u64) -> Scenario {
     for _ in 0..npool {
         mine.push(rng.pick(&pool).clone());
     }
+    // d1 and d1.0 are == but render differently: never in the same run (don't-care zone)
+    if mine.contains(&X::Val(XV::D(1, 0))) {
+        mine.retain(|x| *x != X::Val(XV::D(10, 1)));
+    }
+    // a large evaluation now and then: many distinct arguments, then repeats of the earliest ones
+    // (a size-limited or evicting cache would show here)
+    let big = rng.chance(1, 10);
+    if big {
+        let n = 20 + rng.usize(60);
+        mine = (0..n).map(|i| X::Val(XV::I(1000 + i as i64))).collect();
+    }
     let nfn_used = 1 + rng.usize(names.len());
     let used: Vec<String> = (0..nfn_used).map(|_| rng.pick(&names).clone()).collect();
 
-    let nrules = 1 + rng.usize(5);
+    let nrules = if big { 1 + rng.usize(2) } else { 1 + rng.usize(5) };
+    let names = crate::c05::rule_names(&mut rng, nrules);
     let mut k = 100;
     let mut all_sites: Vec<(String, X)> = vec![];
     for ri in 0..nrules {
-        let nsites = 1 + rng.usize(4);
+        let nsites = if big { mine.len() + 3 + rng.usize(10) } else { 1 + rng.usize(4) };
         let mut items = vec![];
-        for _ in 0..nsites {
-            let f = rng.pick(&used).clone();
-            let arg = if !all_sites.is_empty() && rng.chance(1, 5) {
+        for si in 0..nsites {
+            let f = if big { used[0].clone() } else { rng.pick(&used).clone() };
+            let arg = if big {
+                // first every distinct argument once, then the earliest ones again
+                let a = if si < mine.len() { mine[si].clone() } else { mine[rng.usize(4.min(mine.len()))].clone() };
+                all_sites.push((f.clone(), a.clone()));
+                a
+            } else if !all_sites.is_empty() && rng.chance(1, 5) {
                 // the result of another site as argument: c1(c2(x))
                 let (f2, a2) = rng.pick(&all_sites).clone();
                 k += 1;
@@ -109,7 +139,7 @@ pub fn generate(seed: u64) -> Scenario {
             k += 1;
             items.push(site_expr(k, &f, arg));
         }
-        scn.rules.push(RuleSpec { name: format!("r{ri}"), expr: X::Vec(items) });
+        scn.rules.push(RuleSpec { name: names[ri].clone(), expr: X::Vec(items) });
     }
 
     // failures by call ordinal: "the 1st invocation of (c1,"1") fails, the 2nd succeeds"
@@ -154,7 +184,11 @@ pub fn generate(seed: u64) -> Scenario {
     let p_spur = *rng.pick(&[0, 0, 150]);
     scn.picks = random_picks(&mut rng, 120, ntasks, p_spur, 80);
     scn.exec.fresh_waker = rng.chance(1, 5);
-    scn.exec.max_steps = 1500;
+    scn.exec.max_steps = if big { 20_000 } else { 1500 };
+    if big {
+        // keep the big evaluations cheap: few suspensions
+        scn.behaviour.retain(|b| b.call % 7 == 0);
+    }
     scn
 }
 
